@@ -21,6 +21,16 @@
       literal array operand (C04's S1 analysis, discharged by case split);
   K6  the predicate's verdict is taken through the shared truthiness (C06).
 Not decided: duality laws as value statements beyond these shapes.
+
+Readers (DESIGN §2 E2b): K1 is read from the decision cases of `none` (and of `some` when both delegate to a shared
+core), on the program as written.  K2 and K3 are read from path summaries of the operator function under each kind case;
+only the literal operand and the value its evaluation returned get a kind, both looked at through value-preserving
+plumbing (`?`, the faithful conversion, clone, deref, Cow).  K4 reads a fold by its seed and decided constant, a loop by
+the paths of one iteration (verdict on exit / on going on / at exhaustion), a lazy adaptor by what consumes it, and the
+closure handed to any / all / find_map by its decision cases.  K5 follows a function value chosen per case.  K6 also
+asks that every per-element verdict that is not the decided constant is truthy(predicate(element)).  When the
+function bound to an operator delegates the iteration to private helpers, the same clauses are read on the view of the
+program with those helpers inlined at their call sites (rules/inline.py).
 """
 import re
 from .core import (callee_of, callee_path, strip_refs, strip_payload, show_expr, const_value, expr_mentions, op_const, edge_dominates, bool_edge)
@@ -28,12 +38,168 @@ from .engine import Inconclusive
 from .roles import Roles
 from .opfacts import Unit, path_avoiding, const_under_edge
 from . import prov as P
-from .c13 import find_collection_eval, per_element_sites, adaptor_of, local_reach
+from . import pathsum, optnorm
+from . import panic as PN
+
+# Clauses stated on provenance / path summaries / decision cases: they mean the same thing when a private helper's
+# code stands at its call site (rules/inline.py).  K1.nothing-else and K2.collection-unchanged ask "which functions
+# are called" and are NOT listed.
+INLINE_SAFE = [r"^K2\.collection-eval$", r"^K4\.predicate-site$"]
 
 VALUE = "serde_json::Value"
 SHORT_CIRCUIT = re.compile(r"(Iterator::|Iterator>::)(any|all|find|position|try_fold|try_for_each|find_map|rposition)$")
 BAD_SPLIT = re.compile(r"^core::str::<impl str>::(bytes|as_bytes|encode_utf16|char_indices|split\w*|lines|matches|into_bytes)$|^std::string::String::(as_bytes|into_bytes)$")
 INDEX_PATH = "<std::vec::Vec<T, A> as std::ops::Index<I>>::index"
+REORDER = re.compile(r"(Iterator::|Iterator>::)(rev|filter|filter_map|skip|take|step_by|skip_while|take_while|rfold|chain|zip|cycle|flat_map|flatten|dedup|peekable)$|::(sort\w*|reverse|dedup\w*|retain|truncate|swap_remove|remove|drain|split_off)$")
+LAZY = re.compile(r"(Iterator::|Iterator>::)(map|inspect|by_ref|copied|cloned|enumerate|fuse|map_while)$|IntoIterator>::into_iter$")
+# plumbing that hands a value on unchanged (besides references): `?`, clone, deref/borrow of an owning wrapper
+FAITHFUL = re.compile(r"as std::ops::Try>::branch$|as std::clone::Clone>::clone$|as std::ops::Deref>::deref$|as std::borrow::Borrow<.*>>::borrow$|as std::convert::AsRef<.*>>::as_ref$|^std::borrow::Cow::<.*>::(into_owned|to_mut)$|as std::borrow::ToOwned>::to_owned$")
+EMPTY_CTOR = re.compile(r"Vec::<T>::(new|with_capacity)$|^std::iter::empty$|Default>::default$")
+
+
+def find_collection_eval(roles, p, u, operand=0):
+    """The evaluate calls whose receiver is parsed from operand `operand` (provenance tag RULE#n)."""
+    out = []
+    for s in u.calls_to(roles.parsed_evaluate):
+        s2 = p.s2.get((s.body.key, s.bi))
+        if s2 and s2.extra["receiver"] == {"RULE#%d" % operand}:
+            out.append((s, s2))
+    return out
+
+
+def per_element_sites(roles, p, u, operand=1):
+    out = []
+    for s in u.calls_to(roles.parsed_evaluate):
+        s2 = p.s2.get((s.body.key, s.bi))
+        if s2 and "RULE#%d" % operand in s2.extra["receiver"] and u.per_element(s):
+            out.append((s, s2))
+    return out
+
+
+def adaptor_of(u, site):
+    """(block in root, term, body of the per-element code) of the call in the root function that receives the
+    closure containing `site`; for loop-form per-element code the block/terminator of the loop's `next()` call and
+    the root body itself."""
+    root = u.root
+    if site.body.key == root.key:
+        for (h, blocks, srcs) in PN.loops_of(root):
+            if site.bi in blocks:
+                for bi in sorted(blocks):
+                    t = root.blocks[bi]["term"]
+                    if t["k"] == "Call" and (callee_path(t) or "").endswith("::next"):
+                        return bi, t, root
+        return None
+    cur = site.body
+    while cur.kind == "closure" and cur.creator() and cur.creator()[0].key != root.key:
+        cur = cur.creator()[0]
+    if cur.kind != "closure":
+        return None
+    for bi, t in root.calls():
+        for a in t["args"]:
+            e = strip_refs(root.trace(a))
+            if e[0] == "agg" and e[1].get("closure") == cur.key:
+                return bi, t, cur
+    return None
+
+
+def consumer_of(root, abi):
+    """The call of the root function that consumes the iterator built by the (lazy) adaptor call at block abi,
+    followed through further lazy adaptors: (block, term) or None."""
+    for _ in range(6):
+        nxt = None
+        for bi, t in root.calls():
+            if bi == abi or not t["args"]:
+                continue
+            e = strip_refs(root.trace(t["args"][0]))
+            if e[0] == "call" and e[3] == abi:
+                nxt = (bi, t)
+                break
+        if nxt is None:
+            return None
+        if not LAZY.search(callee_path(nxt[1]) or ""):
+            return nxt
+        abi = nxt[0]
+    return None
+
+
+def local_reach(roles, key):
+    """Bodies reachable from `key` without going through the interpreter (parser / evaluators)."""
+    cg, _ = roles.facts.callgraph()
+    stop = set(roles.sinks) | set(roles.evaluators)
+    seen = set()
+    st = [key]
+    while st:
+        k = st.pop()
+        if k in seen or k in stop:
+            continue
+        seen.add(k)
+        st.extend(cg.get(k, ()))
+    return seen
+
+
+def is_err(e):
+    """Is the (path-local) result expression certainly an error?  Err{..}, `?`'s from_residual, and Result
+    combinators over such (case normal form)."""
+    if e is None:
+        return False
+    x = strip_refs(e)
+    if x[0] == "agg" and x[1].get("variant") == "Err":
+        return True
+    if x[0] == "call" and x[1] and "from_residual" in x[1].get("path", ""):
+        return True
+    if x[0] == "phi":
+        return bool(x[2]) and all(is_err(y) for y in x[2])
+    if x[0] == "call" and x[1] and optnorm.M.match(x[1].get("path", "")):
+        if optnorm.M.match(x[1]["path"]).group(2) in ("map", "and_then", "map_err", "inspect", "and") and x[2] and is_err(x[2][0]):
+            return True
+        try:
+            sub = optnorm.cases_expr(FACTS[0], x)
+        except Exception:
+            sub = None
+        if sub and not (len(sub) == 1 and sub[0][1] is x):
+            return all(is_err(v) for _, v in sub)
+    return False
+
+
+FACTS = [None]
+
+
+def bool_of(facts, e, depth=0):
+    """Constant boolean an expression stands for: a constant, Ok(..)/Some(..)/Value::Bool(..) around one, `!c`, or a
+    call of a local loop-free helper all of whose paths return the same constant for these arguments."""
+    if e is None or depth > 6:
+        return None
+    x = strip_refs(e)
+    while x[0] == "agg" and (x[1].get("variant") in ("Ok", "Some") or (x[1].get("adt") == VALUE and x[1].get("variant") == "Bool")) and len(x[2]) == 1:
+        x = strip_refs(x[2][0])
+    if x[0] == "call" and x[1] and x[1].get("path", "").endswith("Value::Bool") and len(x[2]) == 1:
+        return bool_of(facts, x[2][0], depth + 1)
+    if x[0] == "const":
+        v = const_value(x[1])
+        return v if isinstance(v, bool) else None
+    if x[0] == "unop" and x[1] == "Not":
+        v = bool_of(facts, x[2], depth + 1)
+        return None if v is None else (not v)
+    if x[0] == "phi":
+        vs = {bool_of(facts, y, depth + 1) for y in x[2]}
+        return vs.pop() if len(vs) == 1 else None
+    if x[0] == "call" and x[1] and optnorm.M.match(x[1].get("path", "")):
+        try:
+            sub = optnorm.cases_expr(facts, x)
+        except Exception:
+            sub = None
+        if sub and not (len(sub) == 1 and strip_refs(sub[0][1]) == x):
+            vs = {bool_of(facts, v, depth + 1) for _, v in sub}
+            return vs.pop() if len(vs) == 1 else None
+        return None
+    if x[0] == "call" and x[1] and x[1].get("local"):
+        cb = facts.body(x[1].get("key"))
+        if cb is not None and cb.kind == "fn" and len(x[2]) == cb.arg_count:
+            w = pathsum.summarize(cb, env={i + 1: a for i, a in enumerate(x[2])}, max_paths=200)
+            if not w.overflow and w.paths and not any(q.truncated for q in w.paths):
+                vs = {bool_of(facts, q.result, depth + 1) for q in w.paths}
+                return vs.pop() if len(vs) == 1 else None
+    return None
 
 
 def ext_reach(facts, body, blocks, exclude=()):
@@ -58,7 +224,36 @@ def ext_reach(facts, body, blocks, exclude=()):
     return out
 
 
-def matrix(roles, u, coll_sites, adaptor_bi, pred_sites=()):
+def peel(roles, e):
+    """The value an expression hands on unchanged: references, `?`, Ok/Some payloads, clone, the faithful
+    Evaluated → Value conversion and owning wrappers (Cow) are looked through."""
+    ck = roles.conv.key
+    for _ in range(40):
+        e = strip_refs(e)
+        if e[0] == "field" and e[2] == 0 and isinstance(e[1], tuple) and e[1][0] == "downcast" and e[1][2] in ("Continue", "Ok", "Some", "Borrowed", "Owned"):
+            e = e[1][1]
+            continue
+        if e[0] == "payload":
+            e = e[2]
+            continue
+        if e[0] == "agg" and e[1].get("agg") == "Adt" and len(e[2]) == 1 and (e[1].get("variant") in ("Ok", "Some", "Continue") or (e[1].get("variant") in ("Borrowed", "Owned") and "Cow" in str(e[1].get("adt")))):
+            e = e[2][0]
+            continue
+        if e[0] == "call" and e[1] and e[2]:
+            c = e[1]
+            fwd = {x.get("key") for x in c.get("fwd") or []}
+            if c.get("key") == ck or ck in fwd or FAITHFUL.search(c.get("path", "")):
+                e = e[2][0]
+                continue
+        return e
+    return e
+
+
+def matrix(ctx, roles, u, coll_sites, adaptor_bi, pred_sites=(), name="", cfg=""):
+    """Outcome per (kind of the literal operand) × (kind it evaluates to): path summaries of the root function with
+    the kind of exactly two values fixed — the literal operand and the value its evaluation returned, both looked at
+    through value-preserving plumbing only.  A kind test on anything else is not decided by the case and shows up as
+    several outcomes for it."""
     root = u.root
     facts = roles.facts
     raw_elems = {}
@@ -79,9 +274,8 @@ def matrix(roles, u, coll_sites, adaptor_bi, pred_sites=()):
         return expr_mentions(e, is_coll_call)
 
     def unfaithful(e, out):
-        """Calls between expression e and the collection's evaluation other than the faithful
-        Evaluated → Value conversion, `?`, clone and deref: the value they return need not have the
-        kind the collection evaluated to."""
+        """Calls between expression e and the collection's evaluation other than value-preserving plumbing: the
+        value they return need not have the kind the collection evaluated to."""
         if not isinstance(e, tuple) or is_coll_call(e):
             return
         if e[0] == "call" and e[1]:
@@ -89,7 +283,7 @@ def matrix(roles, u, coll_sites, adaptor_bi, pred_sites=()):
             if inner:
                 c = e[1]
                 fwd = {x.get("key") for x in c.get("fwd") or []}
-                ok = c.get("key") == roles.conv.key or roles.conv.key in fwd or re.search(r"as std::ops::Try>::branch$|as std::clone::Clone>::clone$|as std::ops::Deref>::deref$|as std::borrow::Borrow<.*>>::borrow$|as std::convert::AsRef<.*>>::as_ref$", c["path"]) is not None
+                ok = c.get("key") == roles.conv.key or roles.conv.key in fwd or FAITHFUL.search(c["path"]) is not None
                 if not ok:
                     out.add(c["path"])
                 for a in inner:
@@ -105,83 +299,126 @@ def matrix(roles, u, coll_sites, adaptor_bi, pred_sites=()):
 
     lossy = set()
 
+    def classify_receiver(recv):
+        """What the iteration runs over, read off the path-local expression of the iterator."""
+        calls = []
+        expr_mentions(recv, lambda x: calls.append(x) if x[0] == "call" and x[1] else False)
+        ext = {c[1]["path"] for c in calls if not c[1].get("local")}
+        roots = [c[1]["key"] for c in calls if c[1].get("local") and c[1].get("key") not in roles.sinks and c[1].get("key") not in roles.evaluators]
+        expr_mentions(recv, lambda x: roots.append(x[1]["closure"]) if x[0] == "agg" and x[1].get("closure") else False)
+        if roots:
+            cg, extm = facts.callgraph()
+            for k in facts.reach(roots):
+                ext |= extm.get(k, set())
+        bad = sorted(q for q in ext if BAD_SPLIT.search(q))
+        from_array = expr_mentions(recv, lambda x: x[0] == "downcast" and x[2] == "Array")
+        from_string = expr_mentions(recv, lambda x: x[0] == "downcast" and x[2] == "String")
+        if from_array and not from_string:
+            return "ITER(elements)"
+        if from_string and not from_array:
+            has_chars = "core::str::<impl str>::chars" in ext
+            return "ITER(chars)" if has_chars and not bad else "ITER(string split by %s)" % (bad or "?")
+        if not from_array and not from_string and (any(EMPTY_CTOR.search(q) for q in ext) or expr_mentions(recv, lambda x: x[0] == "agg" and x[1].get("agg") == "Array" and not x[2])):
+            return "ITER(empty)"
+        return "ITER(string split by %s)" % bad if bad else "ITER(?)"
+
     res = {}
     kinds = facts.variants(VALUE)
     cases = [(o, None) for o in kinds if o != "Object"] + [("Object", v) for v in kinds]
     for (o, v) in cases:
         eff = o if o != "Object" else v
 
-        def assume(e, adt, _o=o, _eff=eff):
+        def known(e, adt, _o=o, _eff=eff, record=True):
             if adt != VALUE:
                 return None
-            if is_operand0(e):
+            x = peel(roles, e)
+            if is_operand0(x):
                 return _o
-            if e[0] in ("phi",) and (mentions_coll(e) or any(is_operand0(x) for x in e[2])):
+            if is_coll_call(x):
                 return _eff
-            if mentions_coll(e) and e[0] != "phi":
+            if record and mentions_coll(e):
                 bad = set()
                 unfaithful(e, bad)
-                if bad:
-                    lossy.update(bad)
-                    return None
-                return _eff
+                lossy.update(bad)
             return None
+
+        w = pathsum.summarize(root, known=known, max_paths=4000)
+        if w.overflow or not w.paths:
+            res[(o, v)] = ("UNREAD(too many paths)", None)
+            continue
+        evaluated = any(any(ev[3] in coll_bis for ev in q.events) for q in w.paths)
+        reach = [q for q in w.paths if adaptor_bi in q.blocks]
+        if reach:
+            ks = set()
+            for q in reach:
+                ev = [x for x in q.events if x[3] == adaptor_bi]
+                ks.add(classify_receiver(ev[0][2][0]) if ev and ev[0][2] else "ITER(?)")
+            kind = ks.pop() if len(ks) == 1 else "MIXED(%s)" % ", ".join(sorted(ks))
+        else:
+            outs = [q for q in w.paths if not q.truncated]
+            if outs and all(is_err(q.result) for q in outs):
+                kind = "ERR"
+            else:
+                kind = "OTHER(%s)" % "; ".join(sorted({show_expr(q.result)[:50] for q in outs if not is_err(q.result)}))[:120]
+        res[(o, v)] = (kind, evaluated)
+
+        # ---- K5: can an element reach the predicate's evaluation without being parsed and evaluated first?
+        # (the per-element code under this case: specialisation with constant propagation through captures)
+        if not (o in ("Array", "Object") and eff in ("Array", "String")):
+            continue
+
+        def assume(e, adt, _o=o, _eff=eff, _known=known):
+            if adt != VALUE:
+                return None
+            if e[0] == "phi" and (mentions_coll(e) or any(is_operand0(x) for x in e[2])):
+                return _eff
+            return _known(e, adt, record=False)
 
         restrict = P.specialise_unit(roles, root.key, assume)
         blocks = restrict[root.key]
-        evaluated = any(s.bi in blocks for s, _ in coll_sites)
-        if o in ("Array", "Object") and eff in ("Array", "String"):
-            # can an element reach the predicate's evaluation without being parsed and evaluated first?
-            for ps in pred_sites:
-                pb = ps.body
-                within = restrict.get(pb.key, set())
-                if ps.bi not in within:
+        for ps in pred_sites:
+            pb = ps.body
+            within = restrict.get(pb.key, set())
+            if ps.bi not in within:
+                continue
+            start = 0
+            if pb.key == root.key:
+                # loop-form per-element code: one iteration starts at the loop's next()
+                ad = adaptor_of(u, ps)
+                if ad is None:
                     continue
-                start = 0
-                if pb.key == root.key:
-                    # loop-form per-element code: one iteration starts at the loop's next()
-                    ad = adaptor_of(u, ps)
-                    if ad is None:
-                        continue
-                    start = ad[0]
-                seen, st = set(), [start]
-                while st:
-                    n = st.pop()
-                    if n in seen or n not in within:
-                        continue
-                    seen.add(n)
-                    t = pb.blocks[n]["term"]
-                    c = callee_of(t) if t["k"] == "Call" else None
-                    if c is not None and c.get("key") in roles.sinks and n != start:
-                        continue
-                    st.extend(pb.succs(n))
-                raw_elems[(o, v)] = raw_elems.get((o, v), False) or (ps.bi in seen)
-        if adaptor_bi in blocks:
-            with root.restricted(blocks):
-                recv = root.trace(root.blocks[adaptor_bi]["term"]["args"][0])
-            ext = ext_reach(facts, root, blocks - root.reachable(adaptor_bi), exclude=set(roles.sinks) | set(roles.evaluators))
-            if expr_mentions(recv, lambda x: x[0] == "downcast" and x[2] == "Array"):
-                kind = "ITER(elements)"
-            elif expr_mentions(recv, lambda x: x[0] == "downcast" and x[2] == "String") or any("str" in p and p.endswith("::chars") for p in ext):
-                bad = sorted(p for p in ext if BAD_SPLIT.search(p))
-                has_chars = "core::str::<impl str>::chars" in ext
-                kind = "ITER(chars)" if has_chars and not bad else "ITER(string split by %s)" % (bad or "?")
-            elif expr_mentions(recv, lambda x: x[0] == "call" and x[1] and re.search(r"Vec::<T>::(new|with_capacity)$", x[1]["path"]) is not None):
-                kind = "ITER(empty)"
-            else:
-                # a helper may build the items: classify by what it reaches
-                bad = sorted(p for p in ext if BAD_SPLIT.search(p))
-                kind = "ITER(string split by %s)" % bad if bad else "ITER(?)"
-        else:
-            with root.restricted(blocks):
-                r = strip_refs(root.trace(0))
-            cands = [strip_refs(x) for x in r[2]] if r[0] == "phi" else [r]
-            non_res = [x for x in cands if not (x[0] == "call" and "from_residual" in (x[1] or {}).get("path", ""))]
-            if non_res and all(x[0] == "agg" and x[1].get("variant") == "Err" for x in non_res):
-                kind = "ERR"
-            else:
-                kind = "OTHER(%s)" % show_expr(r)[:60]
-        res[(o, v)] = (kind, evaluated)
+                start = ad[0]
+            seen, st = set(), [start]
+            while st:
+                n = st.pop()
+                if n in seen or n not in within:
+                    continue
+                seen.add(n)
+                t = pb.blocks[n]["term"]
+                c = callee_of(t) if t["k"] == "Call" else None
+                if c is not None and c.get("key") in roles.sinks and n != start:
+                    continue
+                if t["k"] == "Call" and c is None and not (pb.key == root.key and n == start):
+                    # a call through a function value: which function, under this case?
+                    with root.restricted(blocks):
+                        fe = strip_refs(pb.xtrace(t["func"]))
+                    fk = None
+                    if fe[0] == "const" and "fn" in fe[1]:
+                        fn = fe[1]["fn"].get("resolved") or fe[1]["fn"]
+                        fk = fn.get("key") if fn.get("local") else None
+                    fb = facts.body(fk) if fk else None
+                    if fb is None:
+                        raw_elems[(o, v)] = None      # not read
+                        seen.discard(ps.bi)
+                        st = []
+                        break
+                    blocked = lambda tt: (callee_of(tt) is not None and callee_of(tt).get("key") in roles.sinks) or "from_residual" in (callee_path(tt) or "")
+                    if not path_avoiding(fb, blocked):
+                        continue          # every successful path of the function parses what it is given
+                st.extend(pb.succs(n))
+            if raw_elems.get((o, v), False) is None:
+                continue
+            raw_elems[(o, v)] = raw_elems.get((o, v), False) or (ps.bi in seen)
     return res, lossy, raw_elems
 
 
@@ -190,15 +427,323 @@ def expected(o, v):
     return {"Array": "ITER(elements)", "String": "ITER(chars)", "Null": "ITER(empty)"}.get(eff, "ERR")
 
 
+def negation(ctx, roles, none_b, some_b, cfg):
+    """K1 on decision cases: every way `none` produces a result.  There is one call of a core function F with none's
+    own (data, operands); where F gives a boolean b none gives Bool(!b); none fails only where F fails (or gives
+    no boolean); F is the function bound to `some`, or `some` is Bool(b) of the same call."""
+    facts = roles.facts
+    where = none_b.where()
+
+    def core_calls(cases):
+        out = {}
+        for conds, v, _p in cases:
+            expr_mentions(v, lambda x: out.setdefault(x[1], x[2]) if x[0] == "payload" else False)
+            for k in conds:
+                if k[0] == "variant" and k in (getattr(cases, "exprs", None) or {}):
+                    pass
+        return out
+
+    def the_bool(v, want_not):
+        """(source key) when v is Ok(Bool(b)) / Ok(Bool(!b)) of a payload b, else None; False when it is another boolean."""
+        x = strip_refs(v)
+        if not (x[0] == "agg" and x[1].get("variant") == "Ok" and len(x[2]) == 1):
+            return None
+        x = strip_refs(x[2][0])
+        if x[0] == "agg" and x[1].get("adt") == VALUE and x[1].get("variant") == "Bool":
+            x = strip_refs(x[2][0])
+        elif x[0] == "call" and x[1] and x[1].get("path", "").endswith("Value::Bool") and len(x[2]) == 1:
+            x = strip_refs(x[2][0])
+        elif x[0] == "payload" and not want_not:
+            return ("value", x[1])          # some hands on F's own value
+        else:
+            return None
+        if want_not:
+            if not (x[0] == "unop" and x[1] == "Not"):
+                return False
+            x = strip_refs(x[2])
+        if x[0] == "field" and x[2] == 0 and x[1][0] == "downcast" and x[1][2] == "Bool" and strip_refs(x[1][1])[0] == "payload":
+            return ("bool-of-value", strip_refs(x[1][1])[1])
+        if x[0] == "payload":
+            return ("bool", x[1])
+        return False
+
+    def read(body, want_not, label):
+        cases = optnorm.decision_cases(facts, body)
+        if cases is None:
+            return None
+        srcs = {}
+        good, bad = [], []
+        for conds, v, _p in cases:
+            if is_err(v):
+                # an error: only where the core call failed or did not give a boolean
+                excused = any(k[0] == "variant" and (val == "Err" or (isinstance(val, tuple) and val[0] == "not") or (isinstance(val, str) and val not in ("Ok", "Bool", "Some", "Continue"))) for k, val in conds.items())
+                if not excused:
+                    bad.append("an error under %s" % sorted(str(x) for x in conds.values()))
+                continue
+            r = the_bool(v, want_not)
+            if r:
+                good.append(r)
+                expr_mentions(v, lambda x: srcs.setdefault(x[1], strip_refs(x[2])) if x[0] == "payload" else False)
+            else:
+                bad.append(show_expr(v)[:80])
+        return good, bad, srcs
+
+    rn = read(none_b, True, "none")
+    if rn is None:
+        ctx.unread("K1.negation", "none (%s)" % cfg, "the function bound to `none` has loops or too many paths: not read as a decision", where=where, fn=none_b.key)
+        return None
+    good, bad, srcs = rn
+    keys = {g[1] for g in good}
+    ctx.check(bool(good) and not bad and len(keys) == 1, "K1.negation", "none returns Bool(not b) for the core's boolean b, and fails only where the core fails (%s)" % cfg,
+              ("none builds a result that is not the negation of the core's boolean: %s" % bad) if bad else "no Bool(!b) result found in none (%d core calls)" % len(keys), where=where, fn=none_b.key, nontrivial=True)
+    if not good or len(keys) != 1:
+        return None
+    src = srcs.get(next(iter(keys)))
+    if src is None or src[0] != "call" or not src[1] or not src[1].get("local"):
+        ctx.unread("K1.calls-some", "none (%s)" % cfg, "the boolean none negates does not come from a call of a crate function: %s" % show_expr(src)[:80], where=where, fn=none_b.key)
+        return None
+    core = src[1]["key"]
+    args = [strip_refs(a) for a in src[2]]
+    ctx.check(args == [("arg", 1), ("arg", 2)], "K1.same-operands", "none passes its own (data, operands) in order (%s)" % cfg, "the core is called with %s" % [show_expr(a) for a in args], where=where, fn=none_b.key, nontrivial=True)
+    if core == some_b.key:
+        ctx.ok("K1.calls-some", "none negates the function bound to `some` (%s)" % cfg, nontrivial=True)
+        return core
+    # none and some share a core: some must be Bool(b) of the same call with its own (data, operands)
+    rs = read(some_b, False, "some")
+    if rs is None:
+        ctx.unread("K1.calls-some", "some (%s)" % cfg, "none negates %s; the function bound to `some` is not read as a decision over the same call" % core, where=some_b.where(), fn=some_b.key)
+        return core
+    g2, b2, s2 = rs
+    same = bool(g2) and not b2 and all(s2.get(g[1]) is not None and s2[g[1]][0] == "call" and s2[g[1]][1] and s2[g[1]][1].get("key") == core and [strip_refs(a) for a in s2[g[1]][2]] == [("arg", 1), ("arg", 2)] for g in g2)
+    kinds = {g[0] for g in good}, {g[0] for g in g2}
+    same = same and ((kinds[0] == {"bool"} and kinds[1] == {"bool"}) or (kinds[0] == {"bool-of-value"} and kinds[1] <= {"value", "bool-of-value"}))
+    ctx.check(same, "K1.calls-some", "none negates the boolean that some returns: both are built from one call of %s with their own (data, operands) (%s)" % (core.split("::")[-1], cfg),
+              "none negates %s, but the function bound to `some` is not Bool(b) of that same call (%s)" % (core, b2 or [show_expr(x)[:60] for x in s2.values()]), where=some_b.where(), fn=some_b.key, nontrivial=True)
+    return core
+
+
+def emptiness(p):
+    """True / False when the path decided that a length is / is not zero, None when it asked no such question."""
+    for key, val in p.atoms.items():
+        if key[0] == "cmp" and key[1] == "Eq" and "c:0" in (key[2], key[3]) and "::len(" in (key[3] if key[2] == "c:0" else key[2]):
+            return bool(val)
+        if key[0] == "pure" and "::is_empty(" in key[1]:
+            return bool(val)
+        if key[0] == "int" and "::len(" in key[1]:
+            return val == 0
+    return None
+
+
+def switch_facts(w, body, p):
+    """The boolean switches of one path, re-read with the path's environment: [(discriminant expression, truth)]."""
+    out = []
+    for i, bi in enumerate(p.blocks[:-1]):
+        t = body.blocks[bi]["term"]
+        if t["k"] != "SwitchInt" or t.get("dty") != "bool":
+            continue
+        nxt = p.blocks[i + 1]
+        truth = None
+        for val, bb in t["arms"]:
+            if bb == nxt:
+                truth = (str(val) != "0")
+        if truth is None and t["otherwise"] == nxt:
+            listed = {str(v) for v, _ in t["arms"]}
+            truth = True if listed == {"0"} else (False if listed == {"1"} else None)
+        if truth is None:
+            continue
+        out.append((w.operand(t["discr"], p.env or {}), truth))
+    return out
+
+
+def verdict_on(facts, w, body, p, tkeys):
+    """What the path learned about the shared truthiness of the predicate's value: True / False / None."""
+    def is_truthy(x):
+        x = peel_bool(x)
+        return x[0] == "call" and x[1] and x[1].get("key") in tkeys
+
+    def peel_bool(x):
+        x = strip_refs(x)
+        for _ in range(6):
+            if x[0] == "field" and x[2] == 0 and x[1][0] == "downcast" and x[1][2] in ("Continue", "Ok", "Some"):
+                x = strip_refs(x[1][1])
+            elif x[0] == "agg" and x[1].get("variant") in ("Continue", "Ok", "Some") and len(x[2]) == 1:
+                x = strip_refs(x[2][0])
+            elif x[0] == "call" and x[1] and x[1].get("path", "").endswith("as std::ops::Try>::branch") and x[2]:
+                x = strip_refs(x[2][0])
+            else:
+                break
+        return x
+    got = None
+    for e, truth in switch_facts(w, body, p):
+        x = peel_bool(e)
+        neg = False
+        while x[0] == "unop" and x[1] == "Not":
+            neg, x = not neg, peel_bool(x[2])
+        if is_truthy(x):
+            got = (truth != neg)
+        elif x[0] == "binop" and x[1] in ("Eq", "Ne"):
+            a, b_ = peel_bool(x[2]), peel_bool(x[3])
+            for tt, other in ((a, b_), (b_, a)):
+                if is_truthy(tt):
+                    c = bool_of(facts, other)
+                    if c is not None:
+                        eq = (truth != neg) == (x[1] == "Eq")
+                        got = c if eq else (not c)
+    return got
+
+
+def loop_reading(ctx, roles, name, cfg, root, ps, abi, tkeys, seed_want, decided_want):
+    """K4 for per-element code written as a loop: the paths of one iteration from the loop's next()."""
+    facts = roles.facts
+    w = pathsum.summarize(root, max_paths=4000)      # from the entry: what was fixed before the loop is known on the path
+    key = "%s: loop over the collection (%s)" % (name, cfg)
+    if w.overflow or not w.paths:
+        ctx.unread("K4.short-circuit", key, "the loop body has too many paths to read", where=root.where(abi), fn=root.key)
+        return None
+    exits, conts, exhaust, unread = [], [], [], []
+    for q in w.paths:
+        if abi not in q.blocks:
+            continue
+        visited = any(ev[3] == ps.bi for ev in q.events)
+        if q.truncated:
+            if visited:
+                conts.append(q)
+            continue
+        if is_err(q.result):
+            continue
+        (exits if visited else exhaust).append(q)
+    bad = []
+    nxt = lambda q: next((val for k_, val in q.atoms.items() if k_[0] == "variant" and "::next(" in k_[1]), None)
+    passed = [q for q in w.paths if abi in q.blocks and nxt(q) == "Some" and not any(ev[3] == ps.bi for ev in q.events) and (q.truncated or not is_err(q.result))]
+    if passed:
+        bad.append("has a path through the loop body that takes an element and %s without evaluating the predicate for it" % ("goes on" if passed[0].truncated else "returns %s" % show_expr(passed[0].result)[:50]))
+    exhaust = [q for q in exhaust if nxt(q) != "Some"]
+    for q in exits:
+        tv, rv = verdict_on(facts, w, root, q, tkeys), bool_of(facts, q.result)
+        if tv is None or rv is None:
+            unread.append("early exit with verdict %s returning %s" % (tv, show_expr(q.result)[:60]))
+        elif not (tv is decided_want and rv is decided_want):
+            bad.append("leaves the loop with %s after an element whose verdict is %s" % (rv, tv))
+    for q in conts:
+        tv = verdict_on(facts, w, root, q, tkeys)
+        if tv is None:
+            unread.append("goes on to the next element without having looked at the verdict")
+        elif tv is decided_want:
+            bad.append("goes on to the next element after an element whose verdict is %s" % tv)
+    if not exits and not unread:
+        bad.append("evaluates the predicate for every element (no exit from the loop after a deciding element): an error or a log after the deciding element still happens")
+    if bad:
+        ctx.fail("K4.short-circuit", key, "%s %s" % (name, "; ".join(sorted(set(bad)))), where=ps.where(), fn=root.key)
+    elif unread:
+        ctx.unread("K4.short-circuit", key, "%s: %s" % (name, "; ".join(sorted(set(unread)))), where=ps.where(), fn=root.key)
+    else:
+        ctx.ok("K4.short-circuit", key, nontrivial=True)
+        ctx.ok("K4.decided-constant", "%s: the decided path returns %s (%s)" % (name, decided_want, cfg), nontrivial=True)
+    zero = None
+    if exhaust:
+        vs = {bool_of(facts, q.result) for q in exhaust}
+        zero = vs.pop() if len(vs) == 1 else None
+        if zero is None:
+            ctx.unread("K4.seed", "%s: result at exhaustion (%s)" % (name, cfg), "the value returned when the loop runs out of elements is not read as a constant", where=root.where(abi), fn=root.key)
+        else:
+            ctx.check(zero is seed_want, "K4.seed", "%s: with no deciding element the result is %s (%s)" % (name, seed_want, cfg), "when the loop runs out of elements %s returns %s" % (name, zero), where=root.where(abi), fn=root.key, nontrivial=True)
+    return zero
+
+
+def consumer_decisions(ctx, roles, name, cfg, root, seed_want, decided_want):
+    """K4 under a short-circuiting std consumer: what the closure answers decides whether the walk goes on.  Read from
+    the closure's decision cases; only positive evidence is reported: `any` goes on after `false`, `all` after `true`,
+    `find_map` after `None` — a failed evaluation, or the deciding verdict, must not be answered that way."""
+    facts = roles.facts
+    for bi, t in root.calls():
+        m = re.search(r"(Iterator::|Iterator>::)(any|all|find_map)$", callee_path(t) or "")
+        if not m or len(t["args"]) < 2:
+            continue
+        ce = strip_refs(root.trace(t["args"][1]))
+        if not (ce[0] == "agg" and ce[1].get("closure")):
+            continue
+        cb = facts.body(ce[1]["closure"])
+        cases = optnorm.decision_cases(facts, cb) if cb is not None else None
+        if not cases:
+            continue
+        meth = m.group(2)
+        bad = []
+        for conds, v, _q in cases:
+            x = strip_refs(v)
+            if meth == "find_map":
+                goes_on = x[0] == "agg" and x[1].get("variant") == "None"
+            else:
+                bv = bool_of(facts, v)
+                goes_on = bv is (meth == "all")
+            if not goes_on:
+                continue
+            failed = [k for k, val in conds.items() if k[0] == "variant" and val == "Err"]
+            if failed:
+                bad.append("after an element whose evaluation failed")
+            verdicts = [val for k, val in conds.items() if k[0] in ("expr", "site", "pure") and isinstance(val, bool) and ("Ok" in str(k[1]) or "payload" in str(k[1]) or k[0] == "site")]
+            if meth == "find_map" and verdicts and all(val is decided_want for val in verdicts):
+                bad.append("after an element whose verdict is %s" % decided_want)
+        key = "%s: Iterator::%s goes on only after a non-deciding, successful element (%s)" % (name, meth, cfg)
+        if bad:
+            ctx.fail("K4.consumer-decision", key, "%s: under Iterator::%s the walk goes on %s" % (name, meth, "; ".join(sorted(set(bad)))), where=root.where(bi), fn=root.key)
+        else:
+            ctx.ok("K4.consumer-decision", key, nontrivial=True)
+
+
 def run(ctx):
     ctx.explanation = __doc__
-    ctx.rule = "instances = negation facts, 11 collection cases × 2 operators, emptiness/short-circuit path facts, provenance sinks; non-trivial = specialisation, dominance, path existence"
+    ctx.rule = "instances = negation decision cases, 11 collection cases × 2 operators (path summaries), emptiness/short-circuit path facts, provenance sinks; non-trivial = path summaries under kind cases, dominance, path existence"
     ctx.trusted = ["std adaptor models", "C06 (truthiness table)", "str::chars iterates Unicode scalar values"]
     from . import manifest as _MF
     _MF.same_library_clause(ctx, "K6.number-model")
     cfgs = ["default"] if ctx.tier == "quick" else ["default", "python", "wasm"]
+    from .engine import Ctx
+    from .core import Facts
     for cfg in cfgs:
         facts = ctx.facts(cfg)
+        path = ctx.fact_paths[(cfg, "jsonlogic_rs", "debug")]
+        raw = facts if not ctx.inline_set else Facts(path)
+        sub = Ctx(ctx.prop, ctx.tier, ctx.level)
+        analyse(sub, cfg, facts, raw, bool(ctx.inline_set))
+        safe = [re.compile(x) for x in INLINE_SAFE]
+        if not ctx.inline_set and any(any(x.search(v["clause"]) for x in safe) for v in sub.viol):
+            # The iteration is not in the function bound to the operator but in private helpers it calls.  Read the
+            # view of the program in which every private helper reachable from the three operators (without going
+            # through the interpreter) stands at its call sites: the same program, with the facts where the clauses
+            # look for them.  (The engine's own search adds one helper at a time and stops when a step does not
+            # improve; a core split over several helpers needs them together.)
+            from . import inline
+            roles0 = Roles(facts)
+            reach = set()
+            for opn in ("all", "some", "none"):
+                reach |= local_reach(roles0, roles0.fn_of(opn)[0].key)
+            from .c06 import truthy_role, forwarders
+            tr = truthy_role(roles0)
+            keep = {tr.key, roles0.conv.key} | forwarders(roles0, tr) | set(roles0.lossy_conversions)      # functions that are a role of their own
+            hs = [h for h in inline.candidates(path) if h in reach and h not in keep]
+            if hs:
+                try:
+                    sub2 = Ctx(ctx.prop, ctx.tier, ctx.level)
+                    analyse(sub2, cfg, inline.load_view(path, hs), raw, True)
+                    if len(sub2.viol) < len(sub.viol) or not any(any(x.search(v["clause"]) for x in safe) for v in sub2.viol):
+                        sub2.notes.append("%s: read on the view of the program with the private helpers %s inlined at their call sites (the functions bound to the operators delegate the iteration to them)" % (cfg, ", ".join(h.split("::", 1)[1] for h in hs)))
+                        sub = sub2
+                except Inconclusive:
+                    pass
+        ctx.obls.extend(sub.obls)
+        ctx.viol.extend(sub.viol)
+        ctx.undecided.extend(sub.undecided)
+        ctx.nontrivial |= sub.nontrivial
+        ctx.notes.extend(sub.notes)
+        ctx.counts.update(sub.counts)
+        for sm in sub.samples:
+            if len(ctx.samples) < 40:
+                ctx.samples.append(sm)
+
+
+def analyse(ctx, cfg, facts, raw_facts, is_view):
+    if True:
+        FACTS[0] = facts
         roles = Roles(facts)
         p = P.Prov(roles).run()
         from .c06 import truthy_role, forwarders
@@ -208,30 +753,37 @@ def run(ctx):
         all_b, all_e = roles.fn_of("all")
         none_b, none_e = roles.fn_of("none")
         # ---------------- K1
-        u_none = Unit(roles, none_b.key)
-        calls = u_none.calls_to(some_b.key)
-        ctx.check(len(calls) == 1 and calls[0].body.key == none_b.key, "K1.calls-some", "none calls some exactly once (%s)" % cfg, "%d calls of the function bound to `some`" % len(calls), where=none_b.where(), fn=none_b.key, nontrivial=True)
-        if len(calls) == 1:
-            s = calls[0]
-            base = 0
-            args = [strip_refs(none_b.trace(a)) for a in s.term["args"]]
-            ctx.check(args == [("arg", 1), ("arg", 2)], "K1.same-operands", "none passes its own (data, operands) in order (%s)" % cfg, "some is called with %s" % [show_expr(a) for a in args], where=s.where(), fn=none_b.key, nontrivial=True)
-            other = [callee_path(x.term) for x in u_none.calls(lambda c: c["local"] and c.get("key") != some_b.key)]
-            ctx.check(not other, "K1.nothing-else", "none computes nothing itself (%s)" % cfg, "none also calls %s" % other, where=none_b.where(), fn=none_b.key)
-            # Bool(b) → Bool(!b)
-            found = False
-            for b in u_none.bodies:
-                for bi, si, st in b.stmts():
-                    if st["k"] == "Assign" and st["rv"]["k"] == "Aggregate" and st["rv"].get("adt") == VALUE and st["rv"].get("variant") == "Bool":
-                        e = strip_refs(b.xtrace(st["rv"]["ops"][0]))
-                        if e[0] == "unop" and e[1] == "Not":
-                            inner = strip_refs(e[2])
-                            if inner[0] == "field" and inner[1][0] == "downcast" and inner[1][2] == "Bool":
-                                found = True
-                        else:
-                            found = found and False
-                            ctx.fail("K1.negation", "none|Bool(%s)" % show_expr(e)[:40], "none builds a boolean that is not the negation of some's boolean: %s" % show_expr(e), where=b.where(bi, si), fn=b.key)
-            ctx.check(found, "K1.negation", "none returns Bool(not b) for some's Bool(b) (%s)" % cfg, "no Bool(!b) construction found in none", where=none_b.where(), fn=none_b.key, nontrivial=True)
+        def k1(c, r):
+            nb, sb = r.fn_of("none")[0], r.fn_of("some")[0]
+            core = negation(c, r, nb, sb, cfg)
+            if core is not None:
+                other = sorted({callee_path(x.term) for x in Unit(r, nb.key).calls(lambda cc: cc["local"] and cc.get("key") != core)})
+                c.check(not other, "K1.nothing-else", "none computes nothing itself (%s)" % cfg, "none also calls %s" % other, where=nb.where(), fn=nb.key)
+        if is_view:
+            # "which function does none call, with what, and what does it do with the result" is a statement about the
+            # program as written; a helper-inlined view is the same program, so the clause holds if it holds on either
+            from .engine import Ctx
+            subs = []
+            for fx in (raw_facts, facts):
+                sub = Ctx(ctx.prop, ctx.tier, ctx.level)
+                try:
+                    FACTS[0] = fx
+                    k1(sub, roles if fx is facts else Roles(fx))
+                except Inconclusive:
+                    continue
+                finally:
+                    FACTS[0] = facts
+                subs.append(sub)
+                if not sub.viol and not sub.undecided:
+                    break
+            pick = next((x for x in subs if not x.viol and not x.undecided), subs[0] if subs else None)
+            ctx.need(pick is not None, "none: the negation was not read")
+            ctx.obls.extend(pick.obls)
+            ctx.viol.extend(pick.viol)
+            ctx.undecided.extend(pick.undecided)
+            ctx.nontrivial |= pick.nontrivial
+        else:
+            k1(ctx, roles)
         ctx.check(some_e.num == none_e.num == all_e.num, "K1.arity", "all/some/none share the arity (%s)" % cfg, "arities differ", where=none_b.where())
 
         # ---------------- per operator
@@ -242,10 +794,10 @@ def run(ctx):
             colls = find_collection_eval(roles, p, u, 0)
             ctx.check(len(colls) == 1 and not u.per_element(colls[0][0]) and colls[0][1].tags == {"DATA"}, "K2.collection-eval", "%s evaluates an operation operand once, against the outer data (%s)" % (name, cfg),
                       "%d evaluations of operand 0 outside the iteration" % len(colls), where=b.where(), fn=b.key, nontrivial=True)
-            from .c13 import REORDER
             bad_ad = [callee_path(s.term) for s in u.calls_path(REORDER.pattern)]
             ctx.check(not bad_ad, "K4.in-order", "%s walks the collection front to back, every element (no reversing / skipping / truncating adaptor) (%s)" % (name, cfg),
                       "%s applies %s to the collection: the first deciding element is no longer the first in order" % (name, bad_ad), where=b.where(), fn=b.key, nontrivial=True)
+            consumer_decisions(ctx, roles, name, cfg, b, seed_want, decided_want)
             pes = per_element_sites(roles, p, u, 1)
             ctx.check(len(pes) >= 1, "K4.predicate-site", "%s evaluates the predicate per element (%s)" % (name, cfg), "no per-element predicate evaluation", where=b.where(), fn=b.key)
             if not pes or not colls:
@@ -262,29 +814,41 @@ def run(ctx):
                 elif "RULE#0" in recv:
                     ctx.check(set(s2.tags) == {"DATA"}, "K5.elements-against-outer-data", "%s: an element written as an expression is evaluated against the outer data (%s)" % (name, cfg),
                               "%s evaluates a literal element against a value with provenance %s instead of the outer data" % (name, sorted(s2.tags)), where=sx.where(), fn=sx.body.key, nontrivial=True)
-            # the fold (first per-element site in a non-short-circuit consumer defines the adaptor for the matrix)
+            # ---------------- K4: the walk stops at the first deciding element
             adaptors = []
+            zero = {}          # iteration point -> the result when no element is visited (True / False / None = not read)
             for ps, ps2 in pes:
                 ad = adaptor_of(u, ps)
-                ctx.need(ad is not None, "%s: consumer of a per-element closure not found" % name)
+                if ad is None:
+                    ctx.unread("K4.short-circuit", "%s: predicate site %s (%s)" % (name, ps.where(), cfg), "the consumer of the per-element code was not found", where=ps.where(), fn=ps.body.key)
+                    continue
                 abi, aterm, clos = ad
                 apath = callee_path(aterm) or ""
                 adaptors.append((ps, abi, aterm, clos, apath))
-                if SHORT_CIRCUIT.search(apath):
-                    ctx.ok("K4.short-circuit", "%s: predicate under short-circuiting %s (%s)" % (name, apath.rsplit("::", 1)[-1], cfg), nontrivial=True)
+                cons_path = apath
+                if clos.key != b.key and LAZY.search(apath):
+                    # a lazy adaptor does nothing by itself: what consumes the iterator it returns decides
+                    cons = consumer_of(b, abi)
+                    cons_path = (callee_path(cons[1]) or "") if cons else ""
+                if clos.key == b.key:
+                    zero[abi] = loop_reading(ctx, roles, name, cfg, b, ps, abi, tkeys, seed_want, decided_want)
+                elif SHORT_CIRCUIT.search(cons_path):
+                    ctx.ok("K4.short-circuit", "%s: predicate under short-circuiting %s (%s)" % (name, cons_path.rsplit("::", 1)[-1], cfg), nontrivial=True)
+                    m = re.search(r"::(any|all)$", cons_path)
+                    zero[abi] = {"any": False, "all": True}[m.group(1)] if m else None
+                elif cons_path == "":
+                    ctx.unread("K4.short-circuit", "%s: predicate site %s (%s)" % (name, ps.where(), cfg), "the iterator built by %s is consumed in a way that was not read" % apath.rsplit("::", 1)[-1], where=ps.where(), fn=ps.body.key)
                 else:
-                    is_blocked = lambda t: (callee_of(t) is not None and (callee_of(t).get("key") in roles.evaluators or callee_of(t).get("key") in roles.sinks)) or "from_residual" in (callee_path(t) or "")
+                    is_blocked = lambda t: (callee_of(t) is not None and (callee_of(t).get("key") in roles.evaluators or callee_of(t).get("key") in roles.sinks)) or "from_residual" in (callee_path(t) or "") or (t["k"] == "Call" and callee_of(t) is None)
                     inner = ps.body
-                    skip = path_avoiding(inner, is_blocked)
+                    skip = cons_path == apath and path_avoiding(inner, is_blocked)
                     ctx.check(skip, "K4.short-circuit", "%s: predicate site %s is skippable once decided (%s)" % (name, ps.where(), cfg),
-                              "%s evaluates the predicate for every element (consumer %s, no path that skips the evaluation): an error or a log after the deciding element still happens" % (name, apath.rsplit("::", 2)[-1]),
+                              "%s evaluates the predicate for every element (consumer %s, no path that skips the evaluation): an error or a log after the deciding element still happens" % (name, cons_path.rsplit("::", 2)[-1]),
                               where=ps.where(), fn=ps.body.key, nontrivial=True)
                     if skip and re.search(r"Iterator(>)?::fold$", apath):
                         seed = strip_refs(b.trace(aterm["args"][1]))
-                        sv = None
-                        if seed[0] == "agg" and seed[1].get("variant") == "Ok":
-                            x = strip_refs(seed[2][0])
-                            sv = const_value(x[1]) if x[0] == "const" else None
+                        sv = bool_of(facts, seed)
+                        zero[abi] = sv
                         ctx.check(sv is seed_want, "K4.seed", "%s: fold seeded with %s (%s)" % (name, seed_want, cfg), "fold seed is %s" % show_expr(seed), where=b.where(abi), fn=b.key, nontrivial=True)
                         # the decided path returns the constant
                         dec = None
@@ -299,53 +863,74 @@ def run(ctx):
                                         if isinstance(c, bool):
                                             dec = c
                         ctx.check(dec is decided_want, "K4.decided-constant", "%s: the decided path returns %s (%s)" % (name, decided_want, cfg), "the decided path returns %s" % dec, where=inner.where(), fn=inner.key, nontrivial=True)
+                        # every other verdict is the shared truthiness of the predicate's value for this element
+                        vc = optnorm.decision_cases(facts, clos)
+                        k6key = "%s: a verdict that is not the decided constant comes from the predicate (%s)" % (name, cfg)
+                        if vc is None:
+                            ctx.unread("K6.verdict-from-predicate", k6key, "the per-element code has loops or too many paths: its results were not read as cases", where=clos.where(), fn=clos.key)
+                        else:
+                            alien = []
+                            for conds, v, _q in vc:
+                                if is_err(v) or bool_of(facts, v) is not None:
+                                    continue
+                                x = strip_refs(v)
+                                while x[0] == "agg" and x[1].get("variant") in ("Ok", "Some") and len(x[2]) == 1:
+                                    x = strip_refs(x[2][0])
+                                if x[0] == "call" and x[1] and x[1].get("key") in tkeys and expr_mentions(x, lambda y: y[0] == "call" and y[1] and y[1].get("key") == roles.parsed_evaluate):
+                                    continue
+                                alien.append(("the payload of %s" % x[1][:80]) if x[0] == "payload" else show_expr(x)[:90])
+                            ctx.check(not alien, "K6.verdict-from-predicate", k6key, "%s: the verdict for an element can be %s — not the shared truthiness of the predicate's value for that element" % (name, sorted(set(alien))[:3]),
+                                      where=clos.where(), fn=clos.key, nontrivial=True)
                 # verdict through truthy
                 tcalls = [s for s in Unit(roles, ps.body.key).calls(lambda c: c.get("key") in tkeys)] or [s for s in u.calls(lambda c: c.get("key") in tkeys) if s.body.key.startswith(clos.key)]
                 ctx.check(bool(tcalls), "K6.truthy", "%s: verdict at %s through the shared truthiness (%s)" % (name, ps.where(), cfg), "the predicate's value is not passed to the shared truthiness function", where=ps.where(), fn=ps.body.key)
+            if not adaptors:
+                continue
             main = [a for a in adaptors if not SHORT_CIRCUIT.search(a[4])] or adaptors
             abi = main[0][1]
-            # ---------------- K3 empty is false
-            empt = None
-            for sb in b.reachable():
-                tt = b.blocks[sb]["term"]
-                if tt["k"] != "SwitchInt" or tt.get("dty") != "bool":
-                    continue
-                e = strip_refs(b.trace(tt["discr"]))
-                is_len0 = False
-                truth_when_empty = True
-                if e[0] == "binop" and e[1] in ("Eq", "Ne"):
-                    x, y = strip_refs(e[2]), strip_refs(e[3])
-                    for pp, qq in ((x, y), (y, x)):
-                        if pp[0] == "call" and pp[1] and pp[1]["path"].endswith("::len") and qq[0] == "const" and const_value(qq[1]) == 0:
-                            is_len0 = True
-                            truth_when_empty = e[1] == "Eq"
-                elif e[0] == "call" and e[1] and e[1]["path"].endswith("::is_empty"):
-                    is_len0 = True
-                if is_len0:
-                    tg = bool_edge(b, sb, truth_when_empty)
-                    ne = bool_edge(b, sb, not truth_when_empty)
-                    c = const_under_edge(b, sb, truth_when_empty)
-                    if edge_dominates(b, sb, ne, abi):
-                        empt = (sb, c)
-            ctx.check(empt is not None and empt[1] is False, "K3.empty-false", "%s: an empty collection returns false before the iteration (%s)" % (name, cfg),
-                      "no dominating emptiness test returning the constant false (found %s)" % (empt,), where=b.where(), fn=b.key, nontrivial=True, sample={"operator": name, "test_block": empt[0] if empt else None})
+            # ---------------- K3 empty is false: every path that found the collection empty returns false, and the
+            # iteration is reached only by paths that found it non-empty — or returns false when it visits nothing
+            w0 = pathsum.summarize(b, max_paths=4000)
+            k3key = "%s: an empty collection returns false before the iteration (%s)" % (name, cfg)
+            if w0.overflow or not w0.paths:
+                ctx.unread("K3.empty-false", k3key, "%s has too many paths to read" % name, where=b.where(), fn=b.key)
+            else:
+                empties = [q for q in w0.paths if emptiness(q) is True]
+                wrong = sorted({show_expr(q.result)[:60] for q in empties if not q.truncated and not is_err(q.result) and bool_of(facts, q.result) is True} | {"goes on to the iteration" for q in empties if abi in q.blocks and zero.get(abi) is not False})
+                unreadable = [q for q in empties if not q.truncated and not is_err(q.result) and bool_of(facts, q.result) is None and abi not in q.blocks]
+                untested = [q for q in w0.paths if abi in q.blocks and emptiness(q) is None]
+                if wrong:
+                    ctx.fail("K3.empty-false", k3key, "%s: a path that found the collection empty %s" % (name, "; ".join(wrong)), where=b.where(), fn=b.key)
+                elif untested and zero.get(abi) is True:
+                    ctx.fail("K3.empty-false", k3key, "no dominating emptiness test returning the constant false: the iteration is reached without one and yields true when it visits no element", where=b.where(), fn=b.key)
+                elif unreadable or (untested and zero.get(abi) is None):
+                    ctx.unread("K3.empty-false", k3key, "the result for an empty collection is not read as a constant (%s)" % ("no emptiness test before the iteration" if untested else show_expr(unreadable[0].result)[:60]), where=b.where(), fn=b.key)
+                else:
+                    ctx.ok("K3.empty-false", k3key, nontrivial=True, sample={"operator": name, "paths_that_found_it_empty": len(empties), "tested_before_iteration": not untested})
             # ---------------- K2 matrix
-            m, lossy, raw_elems = matrix(roles, u, colls, abi, [ps for ps, _ in pes])
+            m, lossy, raw_elems = matrix(ctx, roles, u, colls, abi, [ps for ps, _ in pes], name, cfg)
             mats[name] = m
             ctx.floor("%s: cases in which elements reach the predicate (%s)" % (name, cfg), len(raw_elems), 3)
             for (o, v), raw in sorted(raw_elems.items(), key=lambda kv: (kv[0][0], kv[0][1] or "")):
                 label = "%s%s" % (o, ("→" + v) if v else "")
                 want_raw = o != "Array"
-                ctx.check(raw == want_raw, "K5.literal-elements-evaluated", "%s: elements of %s reach the predicate %s (%s)" % (name, label, "as they are" if want_raw else "only after being evaluated against the outer data", cfg),
+                k5key = "%s: elements of %s reach the predicate %s (%s)" % (name, label, "as they are" if want_raw else "only after being evaluated against the outer data", cfg)
+                if raw is None:
+                    ctx.unread("K5.literal-elements-evaluated", k5key, "the per-element code calls a function value that is not a known function under this case", where=b.where(), fn=b.key)
+                    continue
+                ctx.check(raw == want_raw, "K5.literal-elements-evaluated", k5key,
                           ("%s: an element of the literal array can reach the predicate without having been parsed and evaluated" % name) if not want_raw else ("%s: an element of a computed collection cannot reach the predicate as it is" % name),
                           where=b.where(), fn=b.key, nontrivial=True)
             ctx.check(roles.conv_faithful, "K2.conversion-faithful", "%s: the conversion of an evaluated value hands on the value itself (%s)" % (name, cfg),
                       "the crate's Evaluated → Value conversion does not return the payload unchanged for every variant: what the collection evaluated to is not what is normalised", where=roles.conv.where(), fn=roles.conv.key, nontrivial=True)
-            ctx.check(not lossy, "K2.collection-unchanged", "%s: the evaluated collection reaches the kind test through the faithful conversion only (%s)" % (name, cfg),
+            ctx.check(not lossy, "K2.collection-unchanged", "%s: the evaluated collection reaches the kind test through value-preserving plumbing only (%s)" % (name, cfg),
                       "%s passes the evaluated collection through %s before looking at its kind: what it evaluated to is no longer what is normalised" % (name, sorted(lossy)), where=b.where(), fn=b.key, nontrivial=True)
             for (o, v), (got, evaluated) in sorted(m.items(), key=lambda kv: (kv[0][0], kv[0][1] or "")):
                 want = expected(o, v)
                 label = "%s%s" % (o, ("→" + v) if v else "")
+                if got.startswith("UNREAD") or got == "ITER(?)":
+                    ctx.unread("K2.collection", "%s: %s ⇒ %s (%s)" % (name, label, want, cfg), "what %s iterates over for a collection operand of kind %s was not read (%s)" % (name, label, got), where=b.where(), fn=b.key)
+                    continue
                 ctx.check(got == want, "K2.collection", "%s: %s ⇒ %s (%s)" % (name, label, want, cfg),
                           "%s treats a collection operand of kind %s as %s; expected %s" % (name, label, got, want), where=b.where(), fn=b.key, nontrivial=True,
                           sample={"operator": name, "operand": label, "outcome": got} if label in ("Array", "String", "Null", "Object→String", "Number") else None)
